@@ -99,6 +99,22 @@ func CheckC18(env *core.Env, rep *core.Report) *core.Result {
 	}
 	sort.Slice(cases, func(i, j int) bool { return core.JSON(cases[i].Mut) < core.JSON(cases[j].Mut) })
 	n := 0
+	// what `validate` prints for a file it accepts is learnt from a trivially valid file (the wording is
+	// nobody's business): a verdict is "valid" when the output is that text
+	normV := func(out, file string) string { return strings.TrimSpace(strings.ReplaceAll(out, file, "<FILE>")) }
+	var validText string
+	{
+		cd := env.Sub("refcal")
+		okf, badf := filepath.Join(cd, "ok.yaml"), filepath.Join(cd, "bad.yaml")
+		_ = ioutil.WriteFile(okf, []byte("tasks:\n  t:\n    command: [\"true\"]\n"), 0o644)
+		_ = ioutil.WriteFile(badf, []byte("tasks:\n  t:\n    command: [\"true\"]\npipelines:\n  p:\n    - task: nosuch\n"), 0o644)
+		okOut := e.run(cd, "", 10*time.Second, "-c", okf, "validate", okf)
+		badOut := e.run(cd, "", 10*time.Second, "-c", okf, "validate", badf)
+		validText = normV(okOut.Stdout, okf)
+		if validText == "" || validText == normV(badOut.Stdout, badf) {
+			core.Broken("calibration: `validate` prints %q for a valid and %q for an invalid file", okOut.Stdout, badOut.Stdout)
+		}
+	}
 	for i, c := range cases {
 		for order := 0; order < 2; order++ {
 			d := env.Sub("ref")
@@ -118,7 +134,7 @@ func CheckC18(env *core.Env, rep *core.Report) *core.Result {
 				continue
 			}
 			kind := fmt.Sprint(c.Mut[0])
-			valid := strings.Contains(val.Stdout, "file is valid")
+			valid := normV(val.Stdout, f) == validText
 			if c.WellFormed {
 				if list.Exit != 0 || !valid {
 					add("well-formed-rejected", fmt.Sprintf("a configuration without dangling references was rejected (list exit %d: %s; validate: %s)", list.Exit, lastLine(list.Stderr), lastLine(val.Stdout)))
